@@ -77,6 +77,27 @@ fn opt_s(s: Option<String>) -> String {
 
 struct Cx<'tcx> {
     tcx: TyCtxt<'tcx>,
+    /// non-local generic helpers (Option / Result combinators ...) called from the crate whose MIR is exported too,
+    /// so that the analysis sees through `x.map(|v| ..)` exactly as through the equivalent `match`
+    extern_wanted: std::cell::RefCell<Vec<DefId>>,
+}
+
+/// std helpers whose bodies are exported (they only move values around and call the closure they are given)
+fn extern_whitelisted(path: &str) -> bool {
+    const PREFIXES: [&str; 4] = ["core::option::Option::<T>::", "std::option::Option::<T>::", "core::result::Result::<T, E>::", "std::result::Result::<T, E>::"];
+    const METHODS: [&str; 34] = [
+        "map", "map_err", "map_or", "map_or_else", "ok", "err", "ok_or", "ok_or_else", "and_then", "or_else", "and", "or",
+        "unwrap_or", "unwrap_or_else", "unwrap_or_default", "is_some", "is_none", "is_ok", "is_err", "is_some_and", "is_ok_and",
+        "is_err_and", "is_none_or", "filter", "then", "then_some", "as_ref", "as_mut", "copied", "cloned", "take", "inspect",
+        "inspect_err", "unwrap_unchecked",
+    ];
+    for p in PREFIXES.iter() {
+        if let Some(rest) = path.strip_prefix(p) {
+            return METHODS.iter().any(|m| *m == rest);
+        }
+    }
+    path == "core::bool::<impl bool>::then" || path == "core::bool::<impl bool>::then_some"
+        || path == "std::bool::<impl bool>::then" || path == "std::bool::<impl bool>::then_some"
 }
 
 impl<'tcx> Cx<'tcx> {
@@ -136,6 +157,9 @@ impl<'tcx> Cx<'tcx> {
         if let ty::Closure(did, _) = t.kind() {
             kv.push(("closure", esc(&self.path(*did))));
         }
+        if let ty::FnDef(did, _) = t.kind() {
+            kv.push(("fndef", esc(&self.path(*did))));
+        }
         if let Some(i) = inner {
             // pointee: one more level
             let mut ikv = vec![("s", esc(&self.ty_s(i)))];
@@ -144,6 +168,9 @@ impl<'tcx> Cx<'tcx> {
             }
             if let ty::Closure(did, _) = i.kind() {
                 ikv.push(("closure", esc(&self.path(*did))));
+            }
+            if let ty::FnDef(did, _) = i.kind() {
+                ikv.push(("fndef", esc(&self.path(*did))));
             }
             if let ty::Dynamic(..) = i.kind() {
                 ikv.push(("k", esc("dyn")));
@@ -486,6 +513,12 @@ impl<'tcx> Cx<'tcx> {
                     let mut kv = vec![("k", esc("call"))];
                     match fty.kind() {
                         ty::FnDef(cdid, cargs) => {
+                            if !cdid.is_local() && tcx.is_mir_available(*cdid) && extern_whitelisted(&self.path(*cdid)) {
+                                let mut w = self.extern_wanted.borrow_mut();
+                                if !w.contains(cdid) {
+                                    w.push(*cdid);
+                                }
+                            }
                             kv.push(("fn", esc(&self.path(*cdid))));
                             kv.push(("fn_local", jbool(cdid.is_local())));
                             kv.push(("fn_crate", esc(&tcx.crate_name(cdid.krate).to_string())));
@@ -696,7 +729,7 @@ impl rustc_driver::Callbacks for Cb {
             Ok(p) => p,
             Err(_) => return Compilation::Continue,
         };
-        let cx = Cx { tcx };
+        let cx = Cx { tcx, extern_wanted: std::cell::RefCell::new(vec![]) };
         let mut fns = vec![];
         for ldid in tcx.hir_body_owners() {
             let did = ldid.to_def_id();
@@ -706,6 +739,22 @@ impl rustc_driver::Callbacks for Cb {
             }
             // const fns have no optimized_mir restrictions; skip ctfe-only items
             fns.push(format!("{}:{}", esc(&cx.path(did)), cx.body_j(did)));
+        }
+        // bodies of the whitelisted std helpers the crate calls (and of those they call, same whitelist)
+        let mut xfns = vec![];
+        let mut done = 0usize;
+        loop {
+            let next: Option<DefId> = { cx.extern_wanted.borrow().get(done).copied() };
+            match next {
+                Some(d) => {
+                    xfns.push(format!("{}:{}", esc(&cx.path(d)), cx.body_j(d)));
+                    done += 1;
+                }
+                None => break,
+            }
+            if done > 200 {
+                break;
+            }
         }
         let top = obj(vec![
             ("nonce", esc(&std::env::var("MQ2_NONCE").unwrap_or_default())),
@@ -717,6 +766,7 @@ impl rustc_driver::Callbacks for Cb {
             ("impls", cx.impls_j()),
             ("root_items", cx.reexports_j()),
             ("fns", format!("{{{}}}", fns.join(","))),
+            ("xfns", format!("{{{}}}", xfns.join(","))),
         ]);
         std::fs::write(&out_path, top).expect("write facts");
         Compilation::Continue
